@@ -25,6 +25,7 @@ EXPLANATION = (
     'allowed_parallelism prefers the minimum and applies value-1 workers; D6 workers join only joinable arenas and always leave '
     'through on_thread_leaving.  The allotment arithmetic, the L-1 worker bound and instantaneous concurrency <= max_concurrency '
     'as a timing property are NOT decided.')
+EXPLANATION += ' Added after the seeded-change rounds: ' + "D2 also: an external thread searches for a slot only below the arena's concurrency (violated on the pinned tree for task_arena(1): known finding); D5 also: after a global_control is destroyed the first element of the ascending control list becomes active; D7: what a scope object's constructor always saves from outside state is used by its destructor on every path."
 ASSUMPTIONS = ['Linux build configuration', 'spin_mutex / rw_mutex scoped lock model']
 ND = ['allotment arithmetic (sum = min(demand, limit), priorities)', 'the L-1 worker bound', 'instantaneous concurrency <= max_concurrency']
 LOCKCLS = lambda c: c.endswith('scoped_lock') or c in ('std::lock_guard',)   # noqa: E731
